@@ -12,7 +12,8 @@ def sh(cmd, cwd, timeout=3000, env=None):
 def main():
     mid = sys.argv[1]
     checks = sys.argv[2:] or [mid]
-    wt = "/tmp/mut/" + mid
+    wt = os.environ.get("MUT_DIR", "/tmp/mut") + "/" + mid
+    tag = os.environ.get("MUT_TAG", "")
     out = os.path.join(wt, "out")
     meta = json.load(open(os.path.join(out, "meta.json")))
     res = {"property": mid, "summary": meta.get("summary"), "needs": meta.get("needs"), "demo_cmd": meta.get("demo_cmd"), "ran": []}
@@ -26,7 +27,7 @@ def main():
     res["applies_on_main"] = rc == 0
     if rc != 0:
         res["apply_error"] = o[-800:]
-        d = os.path.join(V, "seeded", mid); os.makedirs(d, exist_ok=True)
+        d = os.path.join(V, "seeded", mid + tag); os.makedirs(d, exist_ok=True)
         json.dump(res, open(os.path.join(d, "meta.json"), "w"), indent=1)
         print(json.dumps(res)); return
     rc1, o1 = sh(demo, wt)
@@ -66,7 +67,7 @@ def main():
             if rc == 1 or tier == "thorough":
                 break
     res["detected"] = any(r["exit"] == 1 for r in res["ran"])
-    d = os.path.join(V, "seeded", mid); os.makedirs(d, exist_ok=True)
+    d = os.path.join(V, "seeded", mid + tag); os.makedirs(d, exist_ok=True)
     shutil.copy(os.path.join(out, "patch.diff"), d)
     for f in os.listdir(out):
         if f not in ("patch.diff", "meta.json"):
